@@ -57,7 +57,14 @@ fn c08_base_cardinals() {
     by_node = {}
     for fi in range(n):
         by_node.setdefault(props_c04.NODE_OF[fi], []).append(fi)
+    chunks = []
     for nix, fl in sorted(by_node.items()):
+        if len(fl) > 4:
+            half = (len(fl) + 1) // 2
+            chunks += [(nix, "_a", fl[:half]), (nix, "_b", fl[half:])]
+        else:
+            chunks.append((nix, "", fl))
+    for nix, sfx, fl in chunks:
         blocks = []
         for fi in fl:
             blocks.append(G.T("""
@@ -73,7 +80,7 @@ fn c08_base_cardinals() {
         kani::cover!(t != s && b == BinMod::Positive);
         kani::cover!(t != s && b == BinMod::Negative);
     }""", fi=fi, fn=props_c04.fname(fi)))
-        nm = "c08_step_feats_%s" % props_c04.NODE_NAME[nix]
+        nm = "c08_step_feats_%s%s" % (props_c04.NODE_NAME[nix], sfx)
         hs.append(G.H(nm, "step-one-feature", "seg", G.T(HDR + """
 fn @name@() {
     let alphas: RefCell<HashMap<char, Alpha>> = RefCell::new(HashMap::new());
@@ -151,7 +158,7 @@ fn @name@() {
 
     # ---- the 32 diacritics of diacritics.json, constructed directly
     dias = json.loads(G.read(dst, "src/diacritics.json"))
-    GROUP = 8
+    GROUP = 4
     for g0 in range(0, len(dias), GROUP):
         blocks = []
         for di in range(g0, min(g0 + GROUP, len(dias))):
@@ -262,7 +269,7 @@ fn c08_twin_reach() {
 """, functions=["Segment::set_node"], symbolic="all Inv bundles", shape="assert(false) twin (Inv is satisfiable)", expect="fail"))
 
     return {
-        "harnesses": hs, "cap_s": 1200,
+        "harnesses": hs, "cap_s": 1200, "jobs": 12,
         "bounds": ["inductive step: pre-state is ANY bundle with Inv (root<=7, laryngeal<=7, place None or (some presence bit and no payload bit of an absent sub-node)), one real operation, Inv asserted after",
                    "operations this run: %d one-slot matrices, %d node+feature matrices, public setters, %d diacritics from diacritics.json, base case %d cardinals" % (n + 5, len(combos), len(dias), len(rows)),
                    "unwind %d; base case unwind %d" % (unwind, len(rows) + 2)],
